@@ -39,6 +39,8 @@ structure TDef where
   isRx : Bool := false             -- `task.name.startswith('_regex_target')`
   act : Bool := false              -- has an action (its start is observable); not read by the transition system
   oid : Nat := 0
+  setup : List Name := []          -- setup_tasks (with the sources of `getargs`); read by `Model/DelayedX.lean` only
+  calcDep : List Name := []         -- calc_dep; read by `Model/DelayedX.lean` only
 deriving Repr, Inhabited, DecidableEq
 
 /-- one task dict yielded by a creator, after `generate_tasks` -/
@@ -48,6 +50,9 @@ structure NewTask where
   fileDep : List Name := []
   targets : List Name := []
   act : Bool := true
+  setup : List Name := []          -- `setup` and the sources of `getargs` (wave 5)
+  calcDep : List Name := []         -- `calc_dep` (wave 5)
+  wild : List Nat := []             -- wildcard task_deps (pattern ids; `Task.wild_dep`); read by `Model/DelayedX.lean` only
 deriving Repr, Inhabited, DecidableEq
 
 inductive Err | cyclic | notFound (x : Name) | dupTarget | crash
@@ -70,6 +75,8 @@ structure Input where
   utd : Name → Bool := fun _ => false      -- `get_status` says up-to-date
   fails : Name → Bool := fun _ => false    -- the task's action fails
   noAct : Name → Bool := fun _ => false    -- no action: start is not observable
+  delivers : Name → List Name := fun _ => []  -- `task.values['task_dep']` of a successfully executed (calc) task
+  wmatch : Nat → Name → Bool := fun _ _ => false  -- `fnmatch.fnmatch(name, pattern)` (oracle)
 
 inductive PC
   | start                            -- top of `_add_task`: the `regex_group.found` test
@@ -238,7 +245,7 @@ def targetPairs (new : List NewTask) : List (Name × Name) :=
 
 def newDef (targets : Name → Option Name) (oid : Nat) (nt : NewTask) : TDef :=
   { deps := implicitDeps targets nt.deps nt.fileDep, loader := none, fileDep := nt.fileDep, targets := nt.targets,
-    act := nt.act, oid := oid }
+    act := nt.act, oid := oid, setup := nt.setup, calcDep := nt.calcDep }
 
 /-- `for nt in new_tasks: self.tasks[nt.name] = nt` -/
 def insertNew (targets : Name → Option Name) : Nat → (Name → Option TDef) → List NewTask → (Name → Option TDef)
